@@ -52,7 +52,7 @@ def _env():
 
 def _eval(expr):
     try:
-        return with_timeout(_eval_inner, expr, 3)
+        return with_timeout(_eval_inner, expr, 3, count=False)     # a slow expression is not a failure of C19
     except JobTimeout:
         return []
 
